@@ -54,18 +54,20 @@ Definition a_recv_hb (code : Z) (a : av) : av :=
   let a1 := areact false (heartbeatDispatch code) (a_set_hbin None a) in
   if a_idz a1 then a_set_hb false a1 else a1.
 Definition a_recv_cm (code : Z) (a : av) : av := areact false (commitDispatch code) (a_set_cmin None a).
+(* inbox := None (phase unchanged): the reply generation becomes the canonical 0 *)
+Definition a_clear_ib (a : av) : av :=
+  mkA (a_live a) (a_ph a) (a_rejoin a) (a_ck a) (a_hb a) INone (a_hbin a) (a_cmin a) (a_st a) (a_G0 a)
+      (a_idz a) (a_id_e a) (a_id_p a) (a_id_jp a) (a_id_sp a) (a_genz a) (a_gen_eq a) (a_gen_le a)
+      (a_fz a) (a_f_e a) (a_f_p a) (a_f_jp a) (a_f_sp a) (a_f_id a) true (a_G0 a) true.
 Definition a_recv_join (code : Z) (a : av) : av :=
   if has ARetryJoin (joinRetryDispatch code) then
-    (fun b => a_leave_join PIdle b) (areact true (joinRetryDispatch code) a)
+    a_leave_join PIdle (areact true (joinRetryDispatch code) (a_clear_ib a))
   else if has ASuccess (joinDispatch code) then
-    a_leave_join PJoined (a_set_genv (a_gz a) (a_g_eq a) (a_g_le a) (a_adopt a))
-  else a_leave_join PIdle (areact true (joinDispatch code) a).
+    a_leave_join PJoined (a_set_genv (a_gz a) (a_g_eq a) (a_g_le a) (a_adopt (a_clear_ib a)))
+  else a_leave_join PIdle (areact true (joinDispatch code) (a_clear_ib a)).
 Definition a_recv_sync (code : Z) (a : av) : av :=
-  let a0 := a_core (a_live a) (a_ph a) (a_rejoin a) (a_ck a) (a_hb a) INone (a_hbin a) (a_cmin a) a in
-  if has ASuccess (syncDispatch code) then
-    a_core (a_live a) PIdle (a_rejoin a) (a_ck a) true INone (a_hbin a) (a_cmin a) a
-  else (fun b => a_core (a_live b) PIdle (a_rejoin b) (a_ck b) (a_hb b) INone (a_hbin b) (a_cmin b) b)
-         (areact false (syncDispatch code) a0).
+  if has ASuccess (syncDispatch code) then a_set_hb true (a_leave_join PIdle (a_clear_ib a))
+  else a_leave_join PIdle (areact false (syncDispatch code) (a_clear_ib a)).
 
 (* ---- the coordinator facts about the id 0 ---- *)
 Definition zfacts (c : coord) : Prop :=
@@ -85,6 +87,21 @@ Proof.
   - unfold ent_jp. rewrite (find_ent_none 0 _ H9). reflexivity.
   - unfold ent_sp. rewrite (find_ent_none 0 _ H9). reflexivity.
 Qed.
+
+
+(* controlled reduction: projections of the two records, the setters and the small helper functions only *)
+Ltac pcbn :=
+  cbn [m_name m_live m_ph m_rejoin m_ck m_hb m_hbin m_cmin m_id m_gen m_focus m_inbox
+       set_live set_id set_gen set_ph set_rejoin set_ck set_hb set_focus set_inbox set_hbin set_cmin
+       focus_of rgen_of ib_of
+       a_live a_ph a_rejoin a_ck a_hb a_ib a_hbin a_cmin a_st a_G0 a_idz a_id_e a_id_p a_id_jp a_id_sp a_genz a_gen_eq a_gen_le
+       a_fz a_f_e a_f_p a_f_jp a_f_sp a_f_id a_gz a_g_eq a_g_le].
+Ltac pcbn_in H :=
+  cbn [m_name m_live m_ph m_rejoin m_ck m_hb m_hbin m_cmin m_id m_gen m_focus m_inbox
+       set_live set_id set_gen set_ph set_rejoin set_ck set_hb set_focus set_inbox set_hbin set_cmin
+       focus_of rgen_of ib_of
+       a_live a_ph a_rejoin a_ck a_hb a_ib a_hbin a_cmin a_st a_G0 a_idz a_id_e a_id_p a_id_jp a_id_sp a_genz a_gen_eq a_gen_le
+       a_fz a_f_e a_f_p a_f_jp a_f_sp a_f_id a_gz a_g_eq a_g_le] in H.
 
 (* ---- commutation of [absm] with the member-level operations ---- *)
 Section Commute.
@@ -107,28 +124,28 @@ Section Commute.
   Lemma absm_reset : forall m,
     absm c (set_rejoin true (set_gen 0 (set_id 0 m))) = a_reset (absm c m).
   Proof.
-    intros m. destruct Z as (Z1 & Z2 & Z3 & Z4). unfold absm, a_reset, a_set_rejoin, a_set_genv, a_set_idv, a_core. simpl.
-    rewrite Z1, Z2, Z3, Z4. f_equal. apply Nat.eqb_sym.
+    intros m. destruct Z as (Z1 & Z2 & Z3 & Z4). unfold absm, a_reset, a_set_rejoin, a_set_genv, a_set_idv, a_core. pcbn.
+    rewrite Z1, Z2, Z3, Z4. rewrite (Nat.eqb_sym 0 (c_gen c)). reflexivity.
   Qed.
 
   Lemma absm_adopt : forall m, m_ph m = PJoinSent -> absm c (set_id (m_focus m) m) = a_adopt (absm c m).
   Proof.
-    intros m P. unfold absm, a_adopt, a_set_idv, focus_of. simpl. rewrite P. simpl. rewrite Nat.eqb_refl. reflexivity.
+    intros m P. unfold absm, a_adopt, a_set_idv, focus_of. pcbn. rewrite P. cbn [ph_eqb]. rewrite Nat.eqb_refl. reflexivity.
   Qed.
 
   Lemma absm_set_id0 : forall m, absm c (set_id 0 m) = a_set_idv true false false false false (a_fz (absm c m)) (absm c m).
   Proof.
-    intros m. destruct Z as (Z1 & Z2 & Z3 & Z4). unfold absm, a_set_idv. simpl. rewrite Z1, Z2, Z3, Z4. reflexivity.
+    intros m. destruct Z as (Z1 & Z2 & Z3 & Z4). unfold absm, a_set_idv. pcbn. rewrite Z1, Z2, Z3, Z4. reflexivity.
   Qed.
 
   Lemma react1_ph : forall rid m x, m_ph (react1 rid m x) = m_ph m /\ m_focus (react1 rid m x) = m_focus m.
-  Proof. intros rid m x. destruct x; simpl; split; reflexivity. Qed.
+  Proof. intros rid m x. destruct x; split; reflexivity. Qed.
 
   Lemma absm_react1 : forall jr rid m x,
     (jr = true -> m_ph m = PJoinSent /\ rid = m_focus m) -> (jr = false -> rid = 0) ->
     absm c (react1 rid m x) = areact1 jr (absm c m) x.
   Proof.
-    intros jr rid m x Hj Hn. destruct x; simpl; try reflexivity.
+    intros jr rid m x Hj Hn. destruct x; cbn [react1 areact1]; try reflexivity.
     - apply absm_reset.
     - destruct jr.
       + destruct (Hj eq_refl) as [P ->]. apply absm_adopt. exact P.
@@ -139,8 +156,8 @@ Section Commute.
     (jr = true -> m_ph m = PJoinSent /\ rid = m_focus m) -> (jr = false -> rid = 0) ->
     absm c (react rid acts m) = areact jr acts (absm c m).
   Proof.
-    intros jr rid acts. induction acts as [|x r IH]; intros m Hj Hn; simpl; [reflexivity|].
-    unfold react, areact in *. simpl. rewrite IH.
+    intros jr rid acts. induction acts as [|x r IH]; intros m Hj Hn; [reflexivity|].
+    unfold react, areact in *. cbn [fold_left]. rewrite IH.
     - rewrite (absm_react1 jr rid m x Hj Hn). reflexivity.
     - intros E. destruct (Hj E) as [P F]. destruct (react1_ph rid m x) as [A B]. rewrite A, B. split; assumption.
     - exact Hn.
@@ -159,4 +176,107 @@ Section Commute.
     intros code m. unfold recv_cm, a_recv_cm. rewrite <- absm_set_cmin.
     rewrite <- (absm_react false 0); [reflexivity | intros; discriminate | reflexivity].
   Qed.
+  Lemma absm_clear_ib : forall m, absm c (set_inbox None m) = a_clear_ib (absm c m).
+  Proof.
+    intros m. unfold absm, a_clear_ib, focus_of. pcbn. rewrite (Nat.eqb_sym 0 (c_gen c)). reflexivity.
+  Qed.
+
+  Lemma react1_inbox : forall rid m x, m_inbox (react1 rid m x) = m_inbox m.
+  Proof. intros rid m x. destruct x; reflexivity. Qed.
+  Lemma react_inbox : forall rid acts m, m_inbox (react rid acts m) = m_inbox m.
+  Proof.
+    intros rid acts. induction acts as [|x r IH]; intros m; [reflexivity|]. unfold react in *. cbn [fold_left].
+    rewrite IH. apply react1_inbox.
+  Qed.
+
+  (* leaving the JoinGroup / SyncGroup exchange: the phase changes, the inbox is already empty *)
+  Lemma absm_leave : forall ph m, ph <> PJoinSent -> m_inbox m = None ->
+    absm c (set_ph ph m) = a_leave_join ph (absm c m).
+  Proof.
+    intros ph m Hp Hi. destruct Z as (Z1 & Z2 & Z3 & Z4). unfold absm, a_leave_join, focus_of, rgen_of, ib_of. pcbn. rewrite Hi.
+    destruct ph; try congruence; cbn [ph_eqb]; rewrite Z1, Z2, Z3, Z4, (Nat.eqb_sym 0 (m_id m)), (Nat.eqb_sym 0 (c_gen c)); reflexivity.
+  Qed.
+
+  Lemma absm_recv_join : forall code g m, m_ph m = PJoinSent -> m_inbox m = Some (RpJoin code g) ->
+    absm c (recv_join code g m) = a_recv_join code (absm c m).
+  Proof.
+    intros code g m P I. unfold recv_join, a_recv_join.
+    destruct (has ARetryJoin (joinRetryDispatch code)).
+    - rewrite absm_leave; [|discriminate | rewrite react_inbox; reflexivity].
+      rewrite (absm_react true (m_focus m)); [rewrite absm_clear_ib; reflexivity | intros _; split; [exact P | reflexivity] | intros; discriminate].
+    - destruct (has ASuccess (joinDispatch code)).
+      + rewrite absm_leave; [|discriminate | reflexivity]. f_equal.
+        rewrite <- absm_clear_ib.
+        assert (E : absm c (set_id (m_focus m) (set_inbox None m)) = a_adopt (absm c (set_inbox None m))).
+        { apply (absm_adopt (set_inbox None m)). exact P. }
+        rewrite <- E. unfold absm, a_set_genv, focus_of, rgen_of, ib_of. pcbn. rewrite I. reflexivity.
+      + rewrite absm_leave; [|discriminate | rewrite react_inbox; reflexivity].
+        rewrite (absm_react true (m_focus m)); [rewrite absm_clear_ib; reflexivity | intros _; split; [exact P | reflexivity] | intros; discriminate].
+  Qed.
+
+  Lemma absm_recv_sync : forall code m, m_ph m = PSyncSent ->
+    absm c (recv_sync code m) = a_recv_sync code (absm c m).
+  Proof.
+    intros code m P. unfold recv_sync, a_recv_sync. destruct (has ASuccess (syncDispatch code)).
+    - rewrite absm_set_hb. rewrite absm_leave; [|discriminate | reflexivity]. rewrite absm_clear_ib. reflexivity.
+    - rewrite absm_leave; [|discriminate | rewrite react_inbox; reflexivity].
+      rewrite (absm_react false 0); [rewrite absm_clear_ib; reflexivity | intros; discriminate | reflexivity].
+  Qed.
 End Commute.
+
+(* ---- every view of a live, well-formed member against a well-formed coordinator is consistent ---- *)
+Lemma cons_gen_nat : forall G g, cons_gen (G =? 0) (g =? 0) (g =? G) (g <=? G) = true.
+Proof.
+  intros G g. unfold cons_gen.
+  destruct (Nat.eqb_spec G 0), (Nat.eqb_spec g 0), (Nat.eqb_spec g G), (Nat.leb_spec g G); simpl; try reflexivity; lia.
+Qed.
+
+Lemma pend_not_ent : forall c x, wf_c c = true -> memb x (ids (c_ents c)) = true -> memb x (c_pend c) = false.
+Proof.
+  intros c x H He. unfold wf_c in H. repeat (apply andb_true_iff in H; destruct H as [H ?]).
+  destruct (memb x (c_pend c)) eqn:Ep; [|reflexivity]. exfalso.
+  apply memb_In in Ep. rewrite forallb_forall in H7. specialize (H7 x Ep). rewrite He in H7. discriminate.
+Qed.
+
+Lemma cons_id_nat : forall c x, wf_c c = true ->
+  cons_id (x =? 0) (memb x (ids (c_ents c))) (memb x (c_pend c)) (ent_jp c x) (ent_sp c x) = true.
+Proof.
+  intros c x H. destruct (wf_c_zfacts c H) as (Z1 & Z2 & Z3 & Z4). unfold cons_id.
+  destruct (Nat.eqb_spec x 0) as [->|Hx].
+  - rewrite Z1, Z2, Z3, Z4. reflexivity.
+  - destruct (memb x (ids (c_ents c))) eqn:He.
+    + rewrite (pend_not_ent c x H He). reflexivity.
+    + unfold ent_jp, ent_sp. rewrite (find_ent_none x _ He). simpl. destruct (memb x (c_pend c)); reflexivity.
+Qed.
+
+Lemma eqb_refl_b : forall b, Bool.eqb b b = true.
+Proof. destruct b; reflexivity. Qed.
+
+Lemma cons_absm : forall c m, wf_c c = true -> m_live m = true -> wf_m c m = true -> cons_a (absm c m) = true.
+Proof.
+  intros c m Hc L W. destruct (wf_c_zfacts c Hc) as (Z1 & Z2 & Z3 & Z4).
+  unfold cons_a.
+  apply andb_true_iff; split; [apply andb_true_iff; split; [apply andb_true_iff; split; [apply andb_true_iff; split;
+    [apply andb_true_iff; split; [apply andb_true_iff; split|]|]|]|]|].
+  - unfold absm. pcbn. apply cons_id_nat. exact Hc.
+  - unfold absm. pcbn. apply cons_gen_nat.
+  - unfold absm, cons_focus, focus_of. pcbn. destruct (m_ph m); cbn [ph_eqb];
+      try (rewrite Z1, Z2, Z3, Z4, (Nat.eqb_sym 0 (m_id m)); simpl; apply eqb_refl_b).
+    apply andb_true_iff; split; [apply andb_true_iff; split|].
+    + apply cons_id_nat. exact Hc.
+    + destruct (Nat.eqb_spec (m_focus m) (m_id m)) as [->|]; [|reflexivity]. simpl. rewrite !eqb_refl_b. reflexivity.
+    + destruct (Nat.eqb_spec (m_focus m) 0) as [->|]; [|reflexivity]. destruct (Nat.eqb_spec (m_id m) 0) as [->|]; reflexivity.
+  - unfold absm, cons_g, rgen_of, ib_of. pcbn. destruct (m_inbox m) as [[code g|code]|]; cbn.
+    + apply cons_gen_nat.
+    + destruct (c_gen c); reflexivity.
+    + destruct (c_gen c); reflexivity.
+  - unfold wf_m, wf_a in W. unfold absm in *. pcbn_in W. pcbn. rewrite L in W. cbn [negb orb] in W.
+    repeat (apply andb_true_iff in W; destruct W as [W ?]).
+    unfold ib_of in *. destruct (m_ph m), (m_inbox m) as [[code g|code]|]; try discriminate; try reflexivity; cbn [ib_ok].
+    + repeat (apply andb_true_iff in W; destruct W as [W ?]). exact W.
+    + repeat (apply andb_true_iff in W; destruct W as [W ?]). exact W.
+  - unfold wf_m, wf_a in W. unfold absm in *. pcbn_in W. pcbn. rewrite L in W. cbn [negb orb] in W.
+    repeat (apply andb_true_iff in W; destruct W as [W ?]). assumption.
+  - unfold wf_m, wf_a in W. unfold absm in *. pcbn_in W. pcbn. rewrite L in W. cbn [negb orb] in W.
+    repeat (apply andb_true_iff in W; destruct W as [W ?]). assumption.
+Qed.
